@@ -374,6 +374,42 @@ func drawC13(t *rapid.T) *Case {
 		return c
 	}
 	steps = append(steps, Step{Kind: "write", Pieces: [][]byte{append([]byte(ClientPreface), FramesBytes(SettingsFrame(Setting{4, 1 << 20}))...)}})
+	if mode == 1 && (drawBool(t, "atlimit", 50) || osGetenv("VERIF_C13_ATLIMIT") != "") {
+		// at the concurrency limit: 249 parked streams and one whose answer ends in a DATA frame
+		// that is written asynchronously (4090-4096 octets: it fills the handler's buffer and does
+		// not fit the connection's write buffer).  The client has seen END_STREAM - the stream is
+		// closed, it is one below the limit - and opens the next stream at once.  The serve fence
+		// holds the serve loop back while the write is in flight, so that the write's result and
+		// the new HEADERS frame can both be pending when it selects (wave 12, C13-s)
+		aux.Limit = true
+		p.ServeFences = true
+		const adv = 250
+		for i := 0; i < adv-1; i++ {
+			tag := x.tag()
+			aux.Pre = append(aux.Pre, tag)
+			write(x.request(x.newID(), tag, "GET", true, true)...)
+		}
+		var last uint32
+		for k, n := 0, rapid.IntRange(1, 3).Draw(t, "atlimitrounds"); k < n; k++ {
+			tag := x.tag()
+			id := x.newID()
+			x.resp[tag] = &RespPlan{Status: 200, Body: bodyBytes(tag, rapid.IntRange(4088, 4096).Draw(t, "atlimitbody"))}
+			pr := &probe{Name: fmt.Sprintf("request %d at the advertised concurrency limit, opened after END_STREAM of the stream before it", k), Kind: "legal", Frames: x.request(id, tag, "GET", true, false), GoodTag: tag}
+			aux.Probes = append(aux.Probes, pr)
+			write(pr.Frames...)
+			steps = append(steps, Step{Kind: "h2await", Streams: []uint32{id}})
+			last = id
+		}
+		_ = last
+		write(PingFrame(false, [8]byte{0xfc, 7}))
+		steps = append(steps, Step{Kind: "h2ping"}, Step{Kind: "close"})
+		cp.Steps = steps
+		p.Clients = []*ClientPlan{cp}
+		p.Tape, p.Tail = drawTape(t, 64)
+		c := &Case{Plan: p, Metas: []*ClientMeta{{Proto: "h2"}}, Oracle: oracleC13, Aux: aux}
+		c.Summary = "249 parked streams and a chain of requests at the advertised limit of 250, each opened on END_STREAM of the one before (serve fence)"
+		return c
+	}
 	if mode == 1 {
 		// concurrency limit: open as many parked streams as the server advertises, then one more
 		aux.Limit = true
@@ -763,7 +799,7 @@ func c13TagStreams(aux *c13Aux, c *Case) map[string]uint32 {
 
 func init() {
 	register(&CheckDef{ID: "C13", Level: "exploration", Engine: "A", Draw: drawC13,
-		Rule: "a raw-frame HTTP/2 client first puts one stream into each state (half-closed (remote) with the handler parked in the back-end, open with a partial body, closed by a client RST_STREAM; idle ids above; 15%: -timeout-http-idle 2s and a pause of 2.1-9 s right after this set-up, the connection not being idle), so that the server-side state is determined by the client's frames alone, then sends 1-4 probes drawn from a catalogue of 47 (state, frame) situations - 14 legal ones that must never draw an error (unknown frame types and settings, PING, PRIORITY / WINDOW_UPDATE / RST_STREAM on closed streams, padded and empty DATA, trailers, CONTINUATION with padding and priority), 18 stream-level violations (frames on half-closed / reset streams, zero and overflowing WINDOW_UPDATE, self-dependency, malformed requests of 9 kinds, content-length mismatch, ...), 15 connection-level violations (even / reused ids, a header block both malformed and truncated, frames on idle streams, stream-0 / non-0 association, wrong lengths, out-of-range SETTINGS, PUSH_PROMISE, broken CONTINUATION sequences, undecodable header block, oversized frame), plus two special scenarios (first frame not SETTINGS; 251 parked streams against the advertised limit of 250) and, in 15% of the runs, a client GOAWAY(NO_ERROR) after the set-up, so that the probes meet a connection in graceful shutdown (a connection error then shows as an error GOAWAY or as the connection torn down under the parked request); then a closing request (must be served) or a request after the connection error (must not be). Frame delivery order relative to handlers is the controller's. Oracle (refh2sm, from RFC 7540/9113): reaction in the admissible set; handler started iff required; GOAWAY last-stream-id covers every request acted on; legal traffic draws no error. Non-trivial: the server answered at least one frame. Distinct: distinct controller action-label sequences."})
+		Rule: "a raw-frame HTTP/2 client first puts one stream into each state (half-closed (remote) with the handler parked in the back-end, open with a partial body, closed by a client RST_STREAM; idle ids above; 2.5%: 249 parked streams against the advertised limit of 250 and a chain of 1-3 requests whose answers end in an asynchronously written DATA frame, each opened on END_STREAM of the one before, with the serve loop held back by the controller while the write is in flight (serve fence); 15%: -timeout-http-idle 2s and a pause of 2.1-9 s right after this set-up, the connection not being idle), so that the server-side state is determined by the client's frames alone, then sends 1-4 probes drawn from a catalogue of 47 (state, frame) situations - 14 legal ones that must never draw an error (unknown frame types and settings, PING, PRIORITY / WINDOW_UPDATE / RST_STREAM on closed streams, padded and empty DATA, trailers, CONTINUATION with padding and priority), 18 stream-level violations (frames on half-closed / reset streams, zero and overflowing WINDOW_UPDATE, self-dependency, malformed requests of 9 kinds, content-length mismatch, ...), 15 connection-level violations (even / reused ids, a header block both malformed and truncated, frames on idle streams, stream-0 / non-0 association, wrong lengths, out-of-range SETTINGS, PUSH_PROMISE, broken CONTINUATION sequences, undecodable header block, oversized frame), plus two special scenarios (first frame not SETTINGS; 251 parked streams against the advertised limit of 250) and, in 15% of the runs, a client GOAWAY(NO_ERROR) after the set-up, so that the probes meet a connection in graceful shutdown (a connection error then shows as an error GOAWAY or as the connection torn down under the parked request); then a closing request (must be served) or a request after the connection error (must not be). Frame delivery order relative to handlers is the controller's. Oracle (refh2sm, from RFC 7540/9113): reaction in the admissible set; handler started iff required; GOAWAY last-stream-id covers every request acted on; legal traffic draws no error. Non-trivial: the server answered at least one frame. Distinct: distinct controller action-label sequences."})
 }
 
 func laterExplains(ps []*probe, i int, connCode uint32) bool {
